@@ -624,6 +624,35 @@ func runC15(w *World, r *Report) {
 				r.Check(n2 && s2, "C15.destination-walk-instantiates", fmt.Sprintf("%s resolves a destination field through %s", fname, sc.Name()), c.Pos(), "the resolver instantiates nil embedded pointers", "an INTERMEDIATE element of a target path that is a field promoted through an embedded pointer (struct{ *Base }, paths Inner.V or M.k) is looked up with the erroring helper: Compile accepts the mapping and every run fails 'field mapping through an embedded pointer that is nil' — the same promoted field as the LAST element works")
 			})
 		}
+		// … and what the destination walk can never do is refused at Compile: settableFieldByName has an arm "cannot be set"
+		// (an embedded pointer of unexported type), decidable from the destination type alone — the static checks of a TARGET
+		// path (validateFieldMapping, checkStaticValue) examine the exportedness of the fields ON the index path of a promoted
+		// field (IsExported / PkgPath of a StructField obtained with Type.Field), not only of the field the name resolves to
+		for _, fname := range []string{"validateFieldMapping", "checkStaticValue"} {
+			f := w.Fn("compose", fname)
+			examined := false
+			for _, g := range append([]*ssa.Function{f}, staticCalleesOf(w, f)...) {
+				instrs(g, func(in ssa.Instruction) {
+					c, ok := in.(*ssa.Call)
+					if !ok || calleeFullName(c) != "(reflect.StructField).IsExported" || len(c.Call.Args) == 0 {
+						return
+					}
+					// the StructField comes from Type.Field(i)
+					v := c.Call.Args[0]
+					if u, isU := v.(*ssa.UnOp); isU {
+						if a, isA := u.X.(*ssa.Alloc); isA {
+							for _, st := range storesToCell(g, a) {
+								v = st.Val
+							}
+						}
+					}
+					if cc, isC := v.(*ssa.Call); isC && cc.Call.IsInvoke() && cc.Call.Method.Name() == "Field" {
+						examined = true
+					}
+				})
+			}
+			r.Check(examined, "C15.destination-walk-instantiates", fname+" examines the index path of a promoted target field", f.Pos(), "IsExported on Type.Field(i) of the index path", "a target promoted through an embedded pointer of UNEXPORTED struct type (struct{ *hidden; H string }, ToField F) passes every compile-time check although the destination type alone tells it can never be assigned: Compile accepts the mapping and every run fails 'field mapping through an embedded pointer that cannot be set'")
+		}
 		// the deferred closures of addDependencyRelation capture their own copy of the mapping list
 		adr := w.Fn("compose", "WorkflowNode.addDependencyRelation")
 		var inP *ssa.Parameter
